@@ -253,7 +253,7 @@ def assignments(max_spec):
 def shards(tier, seed):
     n = 32 if tier == 'quick' else 128
     items = [('assign', tier, k, n) for k in range(n)]
-    items += [('luafile', tier), ('errors', tier)]
+    items += [('luafile', tier), ('errors', tier), ('resave', tier)]
     return items
 
 
@@ -277,6 +277,19 @@ def run_shard(item):
                 for other in itertools.product(['none', 'p8', 'empty'], repeat=2):
                     assign = ['luafile', other[0], 'none', other[1], 'none', 'none']
                     run_build(env, assign, state, res)
+        elif item[0] == 'resave':
+            # histories: the same source paths are re-saved with new contents between builds of one process
+            for rnd in range(3):
+                for state in OUT_STATES:
+                    run_build(env, ['p8', 'png', 'p8', 'png', 'p8', 'png'], state, res)
+                    run_build(env, ['none', 'p8', 'none', 'none', 'png', 'none'], state, res)
+                env.f['p8'] = fills(5 + rnd)
+                env.f['png'] = fills(8 + rnd)
+                CODE['p8'] = b'-- from p8 round %d\nsrc=1\n' % rnd
+                CODE['png'] = b'-- from png round %d\nsrc=2\n' % rnd
+                open(env.src_p8, 'wb').write(ref_p8(env.f['p8'], CODE['p8']))
+                open(env.src_png, 'wb').write(ref_png(env.f['png'], CODE['png'], [bytes(640)] * 205))
+            res.sample({'history': 'build; re-save src1.p8/src2.p8.png with new contents; build again (x3)'})
         elif item[0] == 'errors':
             for state in OUT_STATES:
                 for sec in SECTIONS:
